@@ -97,6 +97,10 @@ func runC02(r *Run) {
 	// ---- R6 .. R8: the X.509 path builder and its checks
 	c02Builder(r)
 	c02Signature(r)
+
+	// R9: the configured forbidden-extension list reaches the filter intact
+	r.Rule("C02.R9")
+	c02ParseOIDs(r)
 }
 
 func c02ValidateChain(r *Run, fn *ssa.Function) {
